@@ -217,6 +217,9 @@ func (p *vkPeer) handle(m wire.Message) {
 		}
 	case *wire.MsgSendHeaders:
 		p.sendHeaders = true
+		// lenient peer: whatever part of its best chain it has not told the node about is
+		// announced as soon as the node asks for header announcements
+		p.setBest(p.best[len(p.best)-1])
 	}
 }
 
